@@ -31,7 +31,7 @@ NODE_KEYS = ["radius", "length", "axial_resistivity", "capacitance", "v", "HH_gN
 
 
 def cases(seed, tier):
-    n = 24 if tier == "quick" else 520
+    n = 32 if tier == "quick" else 560
     out = []
     for k in range(n):
         rng = trees.rng_for(seed, PID, k)
@@ -44,12 +44,15 @@ def cases(seed, tier):
         keys = [str(x) for x in rng.choice(NODE_KEYS, int(rng.integers(2, 5)), replace=False)]
         if "capacitance" not in keys and k % 3 == 0:
             keys.append("capacitance")
+        single = (k % 4 == 3)
+        if single:  # one family alone (no other trainable, no data_set): derivative paths that only exist in isolation
+            keys = [NODE_KEYS[(k // 4) % len(NODE_KEYS)]]
         for key in keys:
             share = str(rng.choice(["comp", "branch", "cell", "all"]))
             dom = hh_rows if key.startswith("HH_") else list(range(ncomp))
             rows = sorted(set(int(x) for x in rng.choice(dom, int(rng.integers(1, len(dom) + 1)), replace=False)))
             tr.append({"key": key, "share": share, "rows": rows})
-        if spec["syn"]:
+        if spec["syn"] and not single:
             tr.append({"key": "SYN_G", "share": str(rng.choice(["edge", "all"])), "rows": None})
             if any(s[2] == 0 for s in spec["syn"]):
                 tr.append({"key": "IonotropicSynapse_k_minus", "share": "all", "rows": None})
@@ -62,7 +65,8 @@ def cases(seed, tier):
             f = [a for a in range(2, T) if T % a == 0]
             cl = [f[0], T // f[0]] if f and k % 2 else [T]
         out.append({"spec": spec, "trainables": tr, "backend": backend, "solver": solver, "checkpoint": cl,
-                    "wseed": int(rng.integers(0, 2**31)), "data_set": bool(k % 2 == 0), "jvp": bool(k % 3 == 0)})
+                    "wseed": int(rng.integers(0, 2**31)), "data_set": bool(k % 2 == 0) and not single, "jvp": bool(k % 3 == 0),
+                    "fixed_stim": bool(single)})
     return out
 
 
@@ -124,6 +128,7 @@ def run_case(case, rec):
         return
     sizes = [int(np.asarray(i).shape[1]) for i in m.indices_set_by_trainables]
     theta0 = {"params": params0, "stim_scale": jnp.asarray(1.0), "ds": jnp.asarray(float(spec["params"]["radius"][0]))}
+    n = 30 if False else None
     flat0, unravel = ravel_pytree(theta0)
     nrec = len(recs)
     w_lin = jnp.asarray(rng.normal(0, 1, (nrec, T + 1)))
